@@ -41,6 +41,15 @@ func (v *View) Print(n int) error {
 		begin = 0
 	}
 	end := begin + n
+	// The window must not reach behind the last line. Its beginning is moved
+	// back instead, so that n lines are printed whenever there are n lines.
+	if l := v.Lines.Len(); end > l {
+		end = l
+		begin = end - n
+		if begin < 0 {
+			begin = 0
+		}
+	}
 
 	for i := begin; i < end; i++ {
 		fmt.Print(v.Format(i))
